@@ -233,6 +233,7 @@ impl Ctx {
         let mut known_hit: Vec<String> = Vec::new();
         let mut lines: Vec<String> = Vec::new();
         let mut viol_summary = Vec::new();
+        let mut machinery: Vec<Value> = Vec::new();
         let replay_dir = self.verif_root.join("replays").join(&self.id);
         for (key, v) in &viols {
             if let Some((_, what)) = self.known.iter().find(|(k, _)| k == key) {
@@ -241,6 +242,11 @@ impl Ctx {
                     "KNOWN-FINDING: property={} key={} cases={} {}",
                     self.id, key, v.count, what
                 ));
+            } else if key.contains(":machinery:") {
+                // the harness itself failed (a worker that ended without a result, a cross-check between engines that
+                // disagrees): never a verdict about the property - reported on its own line, exit code 2
+                machinery.push(json!({"key": key, "cases": v.count, "witness": v.witness}));
+                lines.push(format!("MACHINERY-ERROR: property={} key={} cases={} {}", self.id, key, v.count, v.witness));
             } else {
                 new_count += 1;
                 let _ = std::fs::create_dir_all(&replay_dir);
@@ -263,8 +269,11 @@ impl Ctx {
         let states = self.states.load(Ordering::Relaxed);
         let transitions = self.transitions.load(Ordering::Relaxed);
         cov.insert("evaluations".into(), json!(evals));
-        cov.insert("states".into(), json!(states.max(1)));
-        cov.insert("transitions".into(), json!(transitions.max(1)));
+        cov.insert("states".into(), json!(states));
+        cov.insert("transitions".into(), json!(transitions));
+        if !machinery.is_empty() {
+            cov.insert("machinery_errors".into(), Value::Array(machinery.clone()));
+        }
         cov.insert("traces_validated_against_impl".into(), json!(self.traces.load(Ordering::Relaxed)));
         cov.insert("distinct_nontrivial".into(), json!(self.nontrivial.len()));
         cov.insert("distinct_outcomes".into(), json!(self.outcomes.len()));
@@ -315,6 +324,8 @@ impl Ctx {
         );
         if new_count > 0 {
             1
+        } else if !machinery.is_empty() {
+            2
         } else {
             0
         }
